@@ -6,6 +6,11 @@ THEOREMS = ["Slock.C20." + t for t in (
     # segmented deque (server/queue.go): proved for all states / parameters / sequences
     "deque_new deque_push deque_pushLeft deque_pushLeft_full deque_pop deque_popRight deque_head_tail_len "
     "deque_reset_rellac deque_freeQueue deque_run deque_run_from_new "
+    # iteration, holes and the maintenance operations under their decidable preconditions; lifted with them included
+    "deque_iter deque_hole deque_shrink deque_resize deque_restructuring deque_run_maintenance "
+    "deque_run_maintenance_from_new "
+    # LongWaitLockQueue + restructuringLong*Queue (db.go)
+    "long_push_pop long_remove long_restructuring long_run long_remove_index_partial "
     # partial (concrete instance only) and witnesses of non-refinement
     "deque_maintenance_partial pushLeft_refuses_at_origin shrink_breaks_len resize_leaves_orphan_node "
     "restructuring_with_spare_node_breaks_push long_restructuring_then_push_ok long_restructuring_spare_node_ok "
@@ -34,6 +39,8 @@ def read_monitor(ctx, outdir, mode):
 def classify(op, impl):
     """distinct = (kind, set of op names used, whether the case ended in a panic)"""
     t = op.split(" ")
+    if t[0] == "#":
+        return None
     if len(t) < 6:
         return (t[1] if len(t) > 1 else "?", "empty")
     names = sorted({o.split(":")[0] for o in t[5].split(";")})
@@ -52,6 +59,9 @@ def run(ctx):
         outdir = ctx.run_harness(exe, "queue", n)
         if outdir:
             dis = ctx.diff(outdir, "queue", classify=classify)
+            for line in open(os.path.join(outdir, "queue.impl")):
+                if line.startswith("# stats"):
+                    ctx.cov["op_distribution"] = {k: int(v) for k, v in (t.split("=") for t in line.split()[2:])}
             read_monitor(ctx, outdir, "queue")
             if dis:
                 d = dis[0]
